@@ -37,6 +37,8 @@ def nontrivial_of(cid, block, impl_lines):
     hdr, keys, ops = core.ops_of_block(block)
     kh = hashlib.sha1(repr((hdr[2:], keys)).encode()).hexdigest()[:12]
     body = impl_lines[1:] if hdr[2] in ('trie', 'conc') else impl_lines
+    if hdr[2] in ('trie', 'conc') and impl_lines and impl_lines[0] != 'build ok':
+        out.add((kh, impl_lines[0]))
     for l in body:
         f = l.split()
         if not f:
@@ -66,6 +68,7 @@ def correspond(ctx, cases, cfgs, judge, tag, model=True, model_env=None, oracle_
         mres[None] = core.run_model(blocks, impl[ocfg], '%s-%s' % (ctx.pid, tag), env=model_env)
         for cfg, env in (per_cfg_model_env or {}).items():
             mres[cfg] = core.run_model(blocks, impl[cfg], '%s-%s-%s' % (ctx.pid, tag, cfg), env=env)
+    errlog = {cfg: core.read_stderr_log('%s-%s' % (ctx.pid, tag), cfg) for cfg in cfgs}
     for cid, block in blocks:
         hdr, keys, ops = core.ops_of_block(block)
         ctx.count('kind:' + hdr[2])
@@ -79,6 +82,9 @@ def correspond(ctx, cases, cfgs, judge, tag, model=True, model_env=None, oracle_
                 if len(ctx.samples) < 4 and len(block) < 1500:
                     ctx.samples.append({'case': block.strip().splitlines()[:12], 'implementation': [l[:160] for l in lines[:8]]})
             for prop, msg in judge(hdr, keys, ops, lines, cmap[cid]):
+                det = errlog[cfg].get(cid, '')
+                if det and any(w in msg for w in ('sanitizer', 'abort', 'crash')):
+                    msg += ' :: ' + det
                 ctx.violations.append({'prop': prop, 'msg': msg, 'case': cid, 'block': block, 'impl': lines[:60], 'config': cfg})
             if model and not ctx.search_mode:
                 m = (mres.get(cfg) or mres[None]).get(cid)
@@ -722,3 +728,165 @@ def replay(ctx, P, path):
             for p, m in judges.judge_trie(hdr, keys, ops, impl.get(cid, [])):
                 print('SPEC VIOLATION %s: %s' % (p, m))
     return 0
+
+# ------------------------------------------------------------------ C19: the command-line tools
+TOOLS = ['xcdat_build', 'xcdat_lookup', 'xcdat_decode', 'xcdat_prefix_search', 'xcdat_predictive_search', 'xcdat_enumerate']
+
+def build_tools():
+    core.ensure_dirs()
+    key = core.sha(core.tree_hash([os.path.join(core.REPO, 'include'), os.path.join(core.REPO, 'tools')]))[:16]
+    d = os.path.join(core.WORK, 'bin', 'tools-' + key)
+    if os.path.isdir(d) and all(os.path.exists(os.path.join(d, t)) for t in TOOLS):
+        return d
+    import glob, shutil, concurrent.futures as cf
+    for old in glob.glob(os.path.join(core.WORK, 'bin', 'tools-*')):
+        shutil.rmtree(old, ignore_errors=True)
+    os.makedirs(d, exist_ok=True)
+    def one(t):
+        cmd = ['g++', '-std=c++17', '-O2', '-DNDEBUG', '-pthread', core.GUARD, '-I', os.path.join(core.REPO, 'include'),
+               '-I', os.path.join(core.REPO, 'tools'), os.path.join(core.REPO, 'tools', t + '.cpp'), '-o', os.path.join(d, t)]
+        p = subprocess.run(cmd, stdout=subprocess.PIPE, stderr=subprocess.STDOUT, text=True)
+        if p.returncode != 0:
+            raise RuntimeError('tool build failed: %s\n%s' % (t, p.stdout[-2000:]))
+    with cf.ThreadPoolExecutor(max_workers=6) as ex:
+        list(ex.map(one, TOOLS))
+    return d
+
+def key_files(ctx):
+    rng = ctx.rng
+    out = []
+    def add(desc, lines, trailing_nl=True):
+        out.append((desc, lines, trailing_nl))
+    add('simple', [b'b', b'a', b'ab', b'a', b'abc'])
+    add('one', [b'apple'])
+    add('one-no-nl', [b'apple'], False)
+    add('empty-line-only', [b''])
+    add('with-empty-line', [b'x', b'', b'xy', b''])
+    add('high-bytes', [b'\xff', b'\x80a', b'a', b'\x7f', b'\xfe\xff', b'a'])
+    add('nul-bytes', [b'a\x00b', b'a', b'\x00', b'a\x00', b'b'])
+    add('tabs', [b'a\tb', b'a', b'\t'])
+    add('cr', [b'a\r', b'a', b'b\r'])
+    add('prefix-chain', [b'a', b'ab', b'abc', b'abcd', b'abcde'])
+    for n in range(ctx.scale(14, 80)):
+        a = rng.choice([b'ab', b'abc', bytes(range(97, 123)), bytes(b for b in range(256) if b != 10)])
+        lines = [gen.rand_word(rng, a, 0, rng.choice([2, 5, 9])) for _ in range(rng.choice([1, 3, 10, 40, 300]))]
+        lines += [rng.choice(lines) for _ in range(rng.randint(0, 4))]      # duplicates
+        rng.shuffle(lines)
+        add('rand%d' % n, lines, rng.random() < 0.8)
+    return out
+
+def run_tool(exe, args, stdin=b'', timeout=60):
+    p = subprocess.run([exe] + args, input=stdin, stdout=subprocess.PIPE, stderr=subprocess.PIPE, timeout=timeout)
+    return p.returncode, p.stdout, p.stderr
+
+def run_c19(ctx):
+    d = build_tools()
+    ctx.configs_used.add('tools(-O2 -DNDEBUG)')
+    tmp = os.path.join(core.WORK, 'tmp')
+    os.makedirs(tmp, exist_ok=True)
+    def V(msg, desc, lines, extra=None):
+        ctx.violations.append({'prop': 'C19', 'msg': msg, 'case': desc, 'block': 'KEYFILE ' + ' '.join(hexs(l) for l in lines[:200]),
+                               'impl': extra or [], 'config': 'tools'})
+    n = 0
+    tool_cases = []
+    for desc, lines, nl in key_files(ctx):
+        K = sorted(set(lines))
+        for t, b in ([(8, 0), (7, 1), (15, 0), (16, 1)] if ctx.tier == 'quick' else [(t, b) for t in gen.VARIANTS for b in (0, 1)]):
+            n += 1
+            outs = {}
+            kf = os.path.join(tmp, 'c19_%d.keys' % os.getpid()); df = os.path.join(tmp, 'c19_%d.dic' % os.getpid())
+            open(kf, 'wb').write(b'\n'.join(lines) + (b'\n' if nl else b''))
+            if os.path.exists(df): os.unlink(df)
+            try:
+                rc, so, se = run_tool(os.path.join(d, 'xcdat_build'), [kf, df, '-t', str(t), '-b', str(b)])
+                ctx.evaluations += 1
+                if rc != 0 or not os.path.exists(df):
+                    V('xcdat_build -t %d -b %d failed (exit %s): %s' % (t, b, rc, se[-200:]), desc, lines); continue
+                if ('Number of keys: %d\n' % len(K)).encode() not in so:
+                    V('xcdat_build reports %s, expected %d distinct lines' % (so.split(b'\n')[0], len(K)), desc, lines)
+                # enumerate
+                outs['buildout'] = b'\n'.join(so.split(b'\n')[:3]) + b'\n'
+                rc, so, se = run_tool(os.path.join(d, 'xcdat_enumerate'), [df])
+                outs['enum'] = so
+                ctx.evaluations += 1
+                rows = [r.split(b'\t', 1) for r in so.split(b'\n')[:-1]] if so else []
+                if rc != 0 or any(len(r) != 2 for r in rows) or [r[1] for r in rows] != K:
+                    V('xcdat_enumerate (-t %d -b %d) printed %s..., expected the %d distinct lines in ascending order' % (t, b, [r[-1][:10] for r in rows[:5]], len(K)), desc, lines, [so[:300].hex()]); continue
+                ids = {r[1]: int(r[0]) for r in rows}
+                if sorted(ids.values()) != list(range(len(K))):
+                    V('xcdat_enumerate ids are not 0..N-1', desc, lines)
+                ctx.nontrivial.add((desc, t, b, 'enum'))
+                # queries: members, non-members, prefixes, extensions (no newline inside a query)
+                Q = [q for q in gen.deviation_queries(K, ctx.rng, 40) if b'\n' not in q]
+                qin = b'\n'.join(Q) + b'\n'
+                rc, so, se = run_tool(os.path.join(d, 'xcdat_lookup'), [df], qin)
+                outs['lookup'] = so
+                ctx.evaluations += len(Q)
+                exp = b''.join((b'%d\t%s\n' % (ids[q], q)) if q in ids else (b'-1\t%s\n' % q) for q in Q)
+                if rc != 0 or so != exp:
+                    V('xcdat_lookup (-t %d -b %d) output differs from the specification' % (t, b), desc, lines, [so[:300].hex(), exp[:300].hex()])
+                else:
+                    ctx.nontrivial.add((desc, t, b, 'lookup'))
+                idq = list(range(len(K))) + [len(K), len(K) + 5]
+                rc, so, se = run_tool(os.path.join(d, 'xcdat_decode'), [df], ('\n'.join(map(str, idq)) + '\n').encode())
+                outs['decode'] = so
+                ctx.evaluations += len(idq)
+                inv = {v: k for k, v in ids.items()}
+                exp = b''.join(b'%d\t%s\n' % (i, inv.get(i, b'')) for i in idq)
+                if rc != 0 or so != exp:
+                    V('xcdat_decode (-t %d -b %d) is not the inverse of xcdat_lookup' % (t, b), desc, lines, [so[:300].hex(), exp[:300].hex()])
+                rc, so, se = run_tool(os.path.join(d, 'xcdat_prefix_search'), [df], qin)
+                outs['prefix'] = so
+                ctx.evaluations += len(Q)
+                exp = b''
+                for q in Q:
+                    r = spec.spec_prefixes(K, q)
+                    exp += b'%d found\n' % len(r) + b''.join(b'%d\t%s\n' % (ids[k], k) for k in r)
+                if rc != 0 or so != exp:
+                    V('xcdat_prefix_search (-t %d -b %d) output differs from the specification' % (t, b), desc, lines, [so[:300].hex(), exp[:300].hex()])
+                else:
+                    ctx.nontrivial.add((desc, t, b, 'prefix'))
+                rc, so, se = run_tool(os.path.join(d, 'xcdat_predictive_search'), [df], qin)
+                outs['pred'] = so
+                ctx.evaluations += len(Q)
+                exp = b''
+                for q in Q:
+                    r = spec.spec_completions(K, q)
+                    exp += b'%d found\n' % len(r) + b''.join(b'%d\t%s\n' % (ids[k], k) for k in r[:10])
+                if rc != 0 or so != exp:
+                    V('xcdat_predictive_search (-t %d -b %d) output differs from the specification' % (t, b), desc, lines, [so[:300].hex(), exp[:300].hex()])
+                else:
+                    ctx.nontrivial.add((desc, t, b, 'predictive'))
+                # the Coq model of the tools (Tools.v, extracted) on the same inputs: stdout must agree byte for byte
+                if not ctx.search_mode:
+                    keyfile = b'\n'.join(lines) + (b'\n' if nl else b'')
+                    dic = open(df, 'rb').read()
+                    ids_in = ('\n'.join(map(str, idq)) + '\n').encode()
+                    tcase = 'CASE tool%d tools %d %d\nDIC %s\nKEYFILE %s\nENUM\nLOOKUP %s\nDECODE %s\nPREFIX %s\nPRED 10 %s\nEND\n' % (
+                        n, t, b, hexs(dic), hexs(keyfile), hexs(qin), hexs(ids_in), hexs(qin), hexs(qin))
+                    tool_cases.append((n, desc, lines, tcase, outs))
+                if len(ctx.samples) < 3:
+                    ctx.samples.append({'key_file_lines': [hexs(l) for l in lines[:10]], 't': t, 'b': b, 'queries': [hexs(q) for q in Q[:6]]})
+            finally:
+                for f in (kf, df):
+                    if os.path.exists(f): os.unlink(f)
+    ctx.count('key files x (t,b)', n)
+    # model vs binaries
+    if tool_cases:
+        blocks = [('tool%d' % c[0], c[3]) for c in tool_cases]
+        res = core.run_sharded(lambda path: [os.path.join(VERIF, 'ocaml', 'xmodel'), path], blocks, 'C19-model')
+        for (k, desc, lines, _, outs) in tool_cases:
+            m = res.get('tool%d' % k)
+            if m is None:
+                ctx.broken_ties.append({'what': 'tools model produced no transcript', 'case': desc, 'block': None}); continue
+            md = dict(l.split(' ', 1) for l in m if ' ' in l)
+            if md.get('build') != 'same':
+                ctx.drift += 1
+                ctx.broken_ties.append({'what': 'correspondence: model of xcdat_build does not reproduce the dictionary file (%s)' % md.get('build'), 'case': desc, 'block': 'KEYFILE ' + ' '.join(hexs(l) for l in lines[:100])})
+            for name in ('buildout', 'enum', 'lookup', 'decode', 'prefix', 'pred'):
+                if name in outs and md.get(name) != hexs(outs[name]):
+                    ctx.broken_ties.append({'what': 'correspondence: stdout of the %s tool differs from the model' % name, 'case': desc,
+                                            'block': 'KEYFILE ' + ' '.join(hexs(l) for l in lines[:100]),
+                                            'impl_line': hexs(outs[name])[:300], 'model_line': (md.get(name) or '')[:300]})
+
+PROPS['C19'] = {'run': run_c19}
